@@ -105,7 +105,24 @@ impl ColCfg {
 			14 => 9000,
 			_ => 33000 + (h >> 8) % 100,
 		} as u32;
-		VSpec { len, fill: (h >> 40) as u8 % 3, seed: id ^ 0x5a5a }.bytes()
+		// distinct keys must have distinct values ("a given value always has the same key"):
+		// the first two bytes carry the key id, so the minimum length is 2.
+		let mut v = VSpec { len: len.max(2), fill: (h >> 40) as u8 % 3, seed: id ^ 0x5a5a }.bytes();
+		v[0] = id as u8;
+		v[1] = (id >> 8) as u8;
+		v
+	}
+	/// Inverse of `pre_value` for observation of value iteration: which key id owns a value.
+	pub fn pre_value_owner(&self, value: &[u8]) -> Option<u16> {
+		if value.len() < 2 {
+			return None
+		}
+		let id = value[0] as u16 | (value[1] as u16) << 8;
+		if self.pre_value(id) == value {
+			Some(id)
+		} else {
+			None
+		}
 	}
 }
 
